@@ -1,6 +1,7 @@
 import Poulpy.Driver.Util
 import Poulpy.Model.Fft64
 import Poulpy.Model.Fft64Avx
+import Poulpy.Model.Fft64Cnv
 
 /-!
 Model driver for `fft64` — twin of `pvh fft64` (harness/src/cmd_fft64.rs).
@@ -20,13 +21,16 @@ The twiddle tables are request fields (`omg=`, `iomg=`: the `2m` patterns the ha
   `be=avx` on from|to|fft|ifft|mul|addmul|pipe|vmp selects the model of FFT64Avx (`Model/Fft64Avx.lean`); `mul`/`addmul`
   take `k=` there (reference fallback for `m % 4 ≠ 0`); `vmp2 [be=avx] k= … a= b= b2= [off=1]`: matrix with two output
   limbs (2-column kernels) → `limb0|limb1`, or with `off=1` (`vmp_apply_dft_to_dft`, `limb_offset = 1`) the second only
+  cnv [be=] k= rs= off= sl= sr= ml= mr= a=l;l;… b=l;l;…   cnv_prepare_left/right (prepared sizes sl/sr, masks ml/mr), cnv_apply_dft,
+                             idft of every limb (one column) → `limb;limb;…`;  cnvp: the same with a0= a1= b0= b1= through
+                             cnv_pairwise_apply_dft(i=0, j=1);  cnvc [be=] k= rs= off= a=l;l;… c=<i64,…>: cnv_by_const_apply
   idx k= dir=f|i             for every block in network order `lvl:blk:ire:iim:imode:jnum:jlog` (what the
                              numerical twiddle check of the gate reads: positions from `fwdIdx`/`invIdx`,
                              intended angle `j = jnum / 2^jlog` from `jpar`)
 -/
 
 namespace Drv.Fft64
-open _root_.Fft64 _root_.F64 _root_.Fft64Avx
+open _root_.Fft64 _root_.F64 _root_.Fft64Avx _root_.Fft64Cnv
 
 def showOut : Outcome (List Nat) → String
   | .ok v => if v.all isFinite then showNats v else "err:nonfinite"
@@ -100,10 +104,41 @@ def handleAvx (op : String) (args : List String) : String :=
         | _, _ => "err:internal"
   | _ => "bad-op"
 
+def showLimbs : Outcome (List (List Int)) → String
+  | .ok v => if v.isEmpty then "-" else ";".intercalate (v.map showInts)
+  | .err k => "err:" ++ k
+  | .panic c => "panic:" ++ c
+
+/-- convolution ops (both back ends): `cnv`, `cnvp` (pairwise, two columns), `cnvc` (by constants) -/
+def handleCnv (op : String) (args : List String) : String :=
+  let K := kvNat args "k"
+  let avx := kv args "be" == some "avx"
+  let o := if avx then avxOps else refOps
+  let omg := (kvNats args "omg").toArray
+  let iomg := (kvNats args "iomg").toArray
+  let rs := kvNat args "rs"
+  let off := kvNat args "off"
+  let n := 2 * 2 ^ K
+  let bad := fun (c : List (List Int)) => c.any (fun v => v.length ≠ n)
+  match op with
+  | "cnv" =>
+    let a := vecs args "a"
+    let b := vecs args "b"
+    if omg.size ≠ tabAlloc K ∨ iomg.size ≠ tabAlloc K then "err:table" else if bad a ∨ bad b then "err:shape"
+    else showLimbs (cnvPipeline o K omg iomg rs off (kvNat args "sl") (kvNat args "sr") (kvInt args "ml") (kvInt args "mr") a b)
+  | "cnvp" =>
+    let a0 := vecs args "a0"; let a1 := vecs args "a1"; let b0 := vecs args "b0"; let b1 := vecs args "b1"
+    if omg.size ≠ tabAlloc K ∨ iomg.size ≠ tabAlloc K then "err:table" else if bad a0 ∨ bad a1 ∨ bad b0 ∨ bad b1 then "err:shape"
+    else showLimbs (cnvPairwise o K omg iomg rs off (kvNat args "sl") (kvNat args "sr") (kvInt args "ml") (kvInt args "mr") a0 a1 b0 b1)
+  | _ =>
+    let a := vecs args "a"
+    if bad a then "err:shape" else showLimbs (cnvByConst avx K rs off a (kvInts args "c"))
+
 def handle (ts : List String) : String :=
   match ts with
   | [] => "bad-op"
   | op :: args =>
+    if op == "cnv" || op == "cnvp" || op == "cnvc" then handleCnv op args else
     if kv args "be" == some "avx" then handleAvx op args else
     let K := kvNat args "k"
     let a := kvNats args "a"
